@@ -57,6 +57,8 @@ PATTERNS = [
     # prefix / postfix / cast / sizeof binding
     "?U x ?O ?U x", "?U ?U x ?P ?P", "?U x [ x ] ?P ?O x", "?U x ?M x ?P ?O x", "( T ) ?U x ?O x", "?U ( T ) x ?P", "sizeof ( T ) ?O x", "sizeof ?U x ?O x",
     "sizeof ( x ) ?O x", "?U ( T ) { x } ?P ?O x", "( T ) ( T ) x ?O x", "?U x ( x ?O x , x ?O x ) ?P", "x ( ( x ?C x ) , x ) ?O x", "_Alignof ( T ) ?O ?U x",
+    # a single parenthesised comma expression as the only argument / as the last operand of a comma expression
+    "x ( ( x ?C x ) ) ?O x", "x ( x , ( x ?C x ) )", "x ?C ( x ?C x )", "x ?C x ?C ( x ?C x )", "x [ x ?C ( x ?C x ) ] ?O x", "x ? x ?C ( x , x ) : x",
 ]
 
 
